@@ -194,8 +194,16 @@ def gen_storage(ch, g, name, nodes, feats, base=None):
         b.update(base)
     a = dict(type="Storage", name=name, nodes=list(nodes[:1]), size=b["size"], cap_in=r(b["cap_in"], g),
              cap_out=r(b["cap_out"], g), start_level=b["start_level"], end_level=b["end_level"])
+    if "sto_caps" in feats:   # one of the two rates exactly zero; discharge slower than charge
+        cs = ch.pick(name + ".caps", ["base", "no_charge", "no_discharge", "swapped"])
+        if cs == "no_charge":
+            a["cap_in"] = 0.0
+        elif cs == "no_discharge":
+            a["cap_out"] = 0.0
+        elif cs == "swapped":
+            a["cap_in"], a["cap_out"] = a["cap_out"], a["cap_in"]
     if "sto_eff" in feats:
-        e = ch.pick(name + ".eff_in", [1.0, 0.9])
+        e = ch.pick(name + ".eff_in", feats["sto_eff"] if isinstance(feats["sto_eff"], list) else [1.0, 0.9])
         if e != 1.0:
             a["eff_in"] = e
     if "sto_costs" in feats:
